@@ -294,7 +294,11 @@ class ModelCompiler:
                 if ":" in range:
                     if "!" not in range:
                         range = "{}!{}".format(default_sheet, range)
-                    self.model.ranges[range] = xltypes.XLRange(range, range)
+                    # Keep the range object of a defined name with the
+                    # same text: the name is resolved through it.
+                    if range not in self.model.ranges:
+                        self.model.ranges[range] = xltypes.XLRange(
+                            range, range)
                     associated_cells.update([
                         cell
                         for row in self.model.ranges[range].cells
